@@ -220,9 +220,14 @@ def _introspect_fun(
         #     f"{fun_path} in cache, evaluating if {len(dep_paths)} python objects have changed"
         # )
         ids: List[Tuple[CanonicalPath, PythonId]] = []
-        for dep_path in dep_paths:
-            obj = ObjectRetrieval.retrieve_object_global(dep_path, gctx)
-            ids.append((dep_path, PythonId(id(obj))))
+        try:
+            for dep_path in dep_paths:
+                obj = ObjectRetrieval.retrieve_object_global(dep_path, gctx)
+                ids.append((dep_path, PythonId(id(obj))))
+        except DDSException:
+            # A dependency recorded by a previous analysis does not exist any more (the function was
+            # renamed or removed and its module imported again): the code has changed.
+            ids.append((fun_path, PythonId(-1)))
         tup = tuple(ids)
         if (fun_path, arg_ctx_hash, tup) in _global_context.cached_fun_interactions:
             # _logger.debug(
